@@ -185,6 +185,7 @@ func runC06(r *Report) {
 	// crypto.Conn.Write encrypts each chunk of a large write from the right place (C08.R6 re-evaluated)
 	c08R6(r.sub("R7"))
 	c06R6(r)
+	bufferOnce(r, "R6")
 }
 
 // writerTable extracts, for each case of Write's type switch, id / length / field order.
